@@ -1,0 +1,52 @@
+package tar
+
+import (
+	"errors"
+	"io"
+)
+
+// ErrIncompleteArchive is returned when an archive read from a stream ends
+// without the end-of-archive marker, i.e. the writer did not finish it.
+var ErrIncompleteArchive = errors.New("tar: stream ended before the end-of-archive marker, the archive is incomplete")
+
+// archiveEndSize is the size of the end-of-archive marker: two 512-byte blocks of zeros.
+const archiveEndSize = 1024
+
+// CompleteReader wraps the stream a tar archive is read from and remembers
+// whether the bytes read so far end with the end-of-archive marker.
+//
+// archive/tar reports a plain io.EOF both when it has read the marker and
+// when the stream simply ends where the next header would start, so a stream
+// that was cut at a file boundary (or that is empty because the sender failed
+// before writing anything) looks like a complete archive. Readers of streamed
+// backups use Complete after the tar reader returned io.EOF to tell the two
+// apart.
+type CompleteReader struct {
+	r     io.Reader
+	zeros int64 // length of the run of zero bytes at the end of what has been read
+}
+
+// NewCompleteReader returns a CompleteReader reading from r.
+func NewCompleteReader(r io.Reader) *CompleteReader {
+	return &CompleteReader{r: r}
+}
+
+// Read implements io.Reader.
+func (c *CompleteReader) Read(p []byte) (int, error) {
+	n, err := c.r.Read(p)
+	i := n
+	for i > 0 && p[i-1] == 0 {
+		i--
+	}
+	if i == 0 {
+		c.zeros += int64(n)
+	} else {
+		c.zeros = int64(n - i)
+	}
+	return n, err
+}
+
+// Complete reports whether the bytes read so far end with the end-of-archive marker.
+func (c *CompleteReader) Complete() bool {
+	return c.zeros >= archiveEndSize
+}
